@@ -184,7 +184,8 @@ theorem decode_encode {bnd : Bytes} (hb : Multipart.BoundaryOk bnd) (parts : Lis
       (Multipart.decodeChunks bnd none none [body]).err = none ∧
       Multipart.partsOf (Multipart.decodeChunks bnd none none [body]).events =
         parts.map Multipart.decodedPart :=
-  ⟨Multipart.encBody bnd parts, Multipart.decode_encode_lemma hb parts hv⟩
+  ⟨Multipart.encBody bnd Multipart.stdEp parts, Multipart.encodeAll_eq parts hv,
+    Multipart.decode_encode_lemma hb parts hv⟩
 
 /-- `decodedPart` only adds the Content-Disposition header in front -/
 theorem decodedPart_eq (p : Multipart.Part) :
@@ -217,8 +218,9 @@ theorem decode_encode_chunked {bnd : Bytes} (hb : Multipart.BoundaryOk bnd) (par
         (Multipart.decodeChunks bnd none none chunks).err = none ∧
         Multipart.partsOf (Multipart.decodeChunks bnd none none chunks).events =
           parts.map Multipart.decodedPart) :=
-  ⟨Multipart.encBody bnd parts, Multipart.encodeAll_eq parts hv,
-    fun hj => Multipart.decode_chunks_full_lemma hb parts hv chunks hj⟩
+  ⟨Multipart.encBody bnd Multipart.stdEp parts, Multipart.encodeAll_eq parts hv,
+    fun hj => Multipart.decode_chunks_full_lemma (ep := Multipart.stdEp) hb (Multipart.preOk_trivial bnd) parts hv chunks
+      (by rw [hj]; simp [Multipart.bodyOf])⟩
 
 /-- **decode_encode_events** (F02a, repaired by d57c0c6). The payload of a part may reach the encoder
 in any number of Data events — `more_data` on all but the last, empty chunks anywhere, in particular
@@ -235,9 +237,10 @@ theorem decode_encode_events {bnd : Bytes} (hb : Multipart.BoundaryOk bnd)
         (Multipart.decodeChunks bnd none none chunks).err = none ∧
         Multipart.partsOf (Multipart.decodeChunks bnd none none chunks).events =
           (cs.map (·.1)).map Multipart.decodedPart) := by
-  refine ⟨Multipart.encBody bnd (cs.map (·.1)), Multipart.encodeEvents_chunked cs hv, fun hj => ?_⟩
-  exact Multipart.decode_chunks_full_lemma hb _
-    (by intro p hp; rcases List.mem_map.1 hp with ⟨c, hc, rfl⟩; exact (hv c hc).1) chunks hj
+  refine ⟨Multipart.encBody bnd Multipart.stdEp (cs.map (·.1)), Multipart.encodeEvents_chunked cs hv, fun hj => ?_⟩
+  exact Multipart.decode_chunks_full_lemma (ep := Multipart.stdEp) hb (Multipart.preOk_trivial bnd) _
+    (by intro p hp; rcases List.mem_map.1 hp with ⟨c, hc, rfl⟩; exact (hv c hc).1) chunks
+    (by rw [hj]; simp [Multipart.bodyOf])
 
 /-- regression for F02a: the formerly failing event sequence (empty first Data event with
 `more_data`, then data) now encodes with the blank line and decodes -/
